@@ -293,7 +293,7 @@ def gen_contain(rng, tier):
         if factory == "glob_file" and rng.random() < 0.5:
             path = rng.choice(["etc/*", "etc/*/*", "*/*", "var/*", "*", "etc/l*", "../*/secret", "../" + root_name + "*/secret"] +
                               [n + "/../*" for n in names[:3]] + [n + "/../*/*" for n in names[:2]])
-        probes.append({"factory": factory, "path": path, "ctx": rng.choice(CTXS), "kind": rng.choice(["text", "text", "raw"])})
+        probes.append({"factory": factory, "path": path, "ctx": rng.choice(CTXS), "kind": rng.choice(["text", "text", "raw"]), "walk": rng.random() < 0.5})
     return {"mode": "contain", "root_name": root_name, "siblings": siblings, "inside": inside, "outside": outside,
             "links": links, "probes": probes}
 
@@ -502,6 +502,11 @@ def run_contain(spec, ctx):
         for pr in spec["probes"]:
             cls = ctx_class(pr["ctx"])
             ectx = cls(root) if pr["ctx"] != "HostContext" else cls(root=root)
+            if pr.get("walk") and pr["ctx"] != "HostContext":
+                # the context as insights.run(root=...) builds it: with the list of files the archive walker found
+                from insights.core import hydration
+                ectx = cls(root, all_files=list(hydration.get_all_files(root)))
+                ctx.count("containment_probes_with_a_walked_file_list")
             path = climb(pr["path"], root, base)
             kind = RawFileProvider if pr["kind"] == "raw" else TextFileProvider
             br = dr.Broker()
